@@ -542,6 +542,16 @@ def compare(dec, src):
                 out.append(('matrix-vs-source:' + o, '%s copy: cell (%d,%d) decodes to %r, the table '
                             'holds %r' % (o, i, j, float(dense[i, j]),
                                           float(want.view(np.float64)[i, j]))))
+        # group metadata of the table: one dataset per entry, holding its text payload
+        sg = src.get('obs_gmd' if axis == 'observation' else 'samp_gmd') or {}
+        fg = dec[axis].get('group_metadata') or {}
+        for name, payload in sg.items():
+            if name not in fg:
+                out.append(('group-metadata:missing', '%s/group-metadata has no dataset %r although the table '
+                            'carries that entry (datasets present: %r)' % (axis, name, sorted(fg))))
+            elif fg[name].get('payload') != payload:
+                out.append(('group-metadata:payload', '%s/group-metadata/%s holds %r, the table %r'
+                            % (axis, name, fg[name].get('payload'), payload)))
         md = src['obs_md' if axis == 'observation' else 'samp_md']
         fmd = dec[axis].get('metadata')
         if fmd is None:
